@@ -54,9 +54,11 @@ def run(model, rep, tier):
         raise AnalysisError('anchor vanished: MonteCarloSampler_jit.__init__')
     params = [a.arg for a in init.args.args[1:]]
     rep.floor('spec fields', len(spec), 18)
+    # a field that is not a constructor parameter is internal state: it has to be given a value by __init__ (checked below)
+    internal = [f for f in spec if f not in params]
     for f in spec:
-        rep.ob('spec-table', mod, spec_node, 'spec field %s is an __init__ parameter' % f, f in params,
-               '' if f in params else 'field %s cannot be supplied to the constructor' % f, engine='tables')
+        if f in params:
+            rep.ob('spec-table', mod, spec_node, 'spec field %s is an __init__ parameter' % f, True, engine='tables')
     for p in params:
         rep.ob('spec-table', mod, init, '__init__ parameter %s is a spec field' % p, p in spec,
                '' if p in spec else 'parameter %s has no typed field: the jit class cannot store it' % p, engine='tables')
@@ -64,7 +66,14 @@ def run(model, rep, tier):
     for n in init.body:
         if isinstance(n, ast.Assign) and isinstance(n.targets[0], ast.Attribute) and unparse(n.targets[0].value) == 'self':
             assigned[n.targets[0].attr] = n
+    for f in internal:
+        n = assigned.get(f)
+        rep.ob('spec-table', mod, n or init, 'internal field %s is initialised by __init__: %s' % (f, unparse(n.value)[:40] if n is not None else '<missing>'),
+               n is not None, '' if n is not None else 'field %s is neither a constructor parameter nor given a value in __init__: reading it '
+               'returns uninitialised memory in the compiled class' % f, engine='tables')
     for f in spec:
+        if f in internal:
+            continue
         n = assigned.get(f)
         ok = n is not None and unparse(n.value) == f
         rep.ob('spec-table', mod, n or init, 'self.%s = %s' % (f, unparse(n.value) if n is not None else '<missing>'), ok,
